@@ -8,7 +8,20 @@
 #include "internal.h"
 
 #include <ctype.h>
+#include <stdbool.h>
 #include <stdlib.h>
+
+/*
+  An entry of the map is in use if its numbers start with a digit or with
+  the marker of a positive base-256 number, which is how GNU tar stores
+  offsets and sizes of 8 GiB and more.
+ */
+static bool is_used(const char *field)
+{
+	unsigned char c = (unsigned char)field[0];
+
+	return isdigit(c) || c == 0x80;
+}
 
 static int parse(const gnu_old_sparse_t *in, size_t count,
 		 sparse_map_t **head, sparse_map_t **tail)
@@ -17,7 +30,7 @@ static int parse(const gnu_old_sparse_t *in, size_t count,
 	sqfs_u64 off, sz;
 
 	while (count--) {
-		if (!isdigit(in->offset[0]) || !isdigit(in->numbytes[0]))
+		if (!is_used(in->offset) || !is_used(in->numbytes))
 			return 1;
 		if (read_number(in->offset, sizeof(in->offset), &off))
 			return -1;
